@@ -6,9 +6,11 @@ defaults     every setting's default is admitted by the setting's own schema (en
 assign       histories of assignments: schema-defined validity, near misses keep the previous value
 documents    random subsets changed at once -> armi writer (short/medium/full, stream/file) -> armi reader;
              the text is also parsed independently with ruamel
-handwritten  files produced without armi (block/flow YAML): valid values, invalid values, unknown keys
+handwritten  files produced without armi (block/flow YAML): valid values, invalid values, unknown keys (batch mode and
+             a user answering the prompt)
 renames      every documented old name (+ synthetic expiring ones) in a file lands on the new setting
 copies       modified()/duplicate()/pickle leave the original untouched (also for list/dict values)
+each_setting one group of single-setting documents per setting of the App (deterministic values, all styles)
 """
 import copy
 import datetime
@@ -533,7 +535,7 @@ def _xs_break(d):
     ])
 
 
-def _xs_values():
+def _xs_values(valid_only=False):
     ids = st.sampled_from(XS_IDS)
     good = st.dictionaries(ids, st.one_of(_xs_one_valid(), _xs_one_valid(), st.just({}), st.none()), max_size=4).map(lambda d: (d, "valid"))
     badkey = st.tuples(st.dictionaries(ids, _xs_one_valid(), max_size=2), st.sampled_from(["AAA", "", "abc"]), _xs_one_valid()).map(
@@ -541,6 +543,8 @@ def _xs_values():
     badopt = st.tuples(st.dictionaries(ids, _xs_one_valid(), max_size=2), ids, _xs_one_valid().flatmap(_xs_break)).map(
         lambda t: (dict(t[0], **{t[1]: t[2]}), "invalid"))
     wrong = st.sampled_from([(None, "invalid"), (5, "invalid"), ([], "invalid"), ("AA", "invalid"), ([["AA", {"geometry": "0D"}]], "invalid")])
+    if valid_only:
+        return good
     return st.one_of(good, good, good, badkey, badopt, wrong)
 
 
@@ -575,15 +579,17 @@ def _cycle_break(d):
     ])
 
 
-def _cycles_values():
+def _cycles_values(valid_only=False):
     good = st.lists(_cycle_valid(), max_size=4).map(lambda l: (l, "valid"))
     bad = st.tuples(st.lists(_cycle_valid(), max_size=2), _cycle_valid().flatmap(_cycle_break), st.lists(_cycle_valid(), max_size=1)).map(
         lambda t: (t[0] + [t[1]] + t[2], "invalid"))
     wrong = st.sampled_from([(None, "invalid"), (5, "invalid"), ({"cumulative days": [1]}, "invalid"), ("abc", "invalid")])
+    if valid_only:
+        return good
     return st.one_of(good, good, good, bad, wrong)
 
 
-def _tight_values():
+def _tight_values(valid_only=False):
     keys = st.one_of(st.sampled_from(["globalFlux", "thermalHydraulics", "fuelPerformance", "dif3d"]), _key())
     inner = st.fixed_dictionaries({"parameter": _text(), "convergence": _num_ok_float()})
     good = st.dictionaries(keys, st.one_of(inner, inner, st.just({}), st.none()), max_size=3).map(lambda d: (d, "valid"))
@@ -594,6 +600,8 @@ def _tight_values():
 
     bad = st.tuples(st.dictionaries(keys, inner, max_size=2), keys, inner.flatmap(brk)).map(lambda t: (dict(t[0], **{t[1]: t[2]}), "invalid"))
     wrong = st.sampled_from([(None, "invalid"), (5, "invalid"), ([], "invalid"), ("globalFlux", "invalid")])
+    if valid_only:
+        return good
     return st.one_of(good, good, good, bad, wrong)
 
 
@@ -601,16 +609,12 @@ def _falsy_for(default):
     return [False, 0, 0.0, "", [], {}, None]
 
 
-def value_strategy(name, info):
-    """Strategy of {'name','v','e'} for one setting."""
+def value_strategy(name, info, valid_only=False):
+    """Strategy of {'name','v','e'} for one setting (``valid_only``: no deliberate near misses)."""
     spec, default = info["spec"], info["default"]
     t = spec["t"]
-    if t == "xs":
-        pairs = _xs_values()
-    elif t == "tight":
-        pairs = _tight_values()
-    elif t == "cycles":
-        pairs = _cycles_values()
+    if t in ("xs", "tight", "cycles"):
+        pairs = {"xs": _xs_values, "tight": _tight_values, "cycles": _cycles_values}[t](valid_only)
     else:
         mspec = spec
         if t == "bydefault":
@@ -626,8 +630,10 @@ def value_strategy(name, info):
         if not spec.get("restricted") and t not in ("modverb",):
             cands = st.one_of(cands, cands, cands, st.sampled_from(_falsy_for(default)))
         pairs = cands.map(lambda v, m=mspec: (v, _model(m, dec(v))))
+        if valid_only:
+            pairs = pairs.filter(lambda p: p[1] != "invalid")
     skip = None if info["defaultOk"] or not _excluded(SIG_DEFAULT) else SIG_DEFAULT
-    pairs = st.one_of(pairs, pairs, pairs, pairs, pairs, st.just(({"$d": 1}, "default")))
+    pairs = st.one_of(pairs, pairs, pairs, pairs, pairs, pairs, pairs, st.just(({"$d": 1}, "default")))
 
     def build(p, n=name):
         ch = {"name": n, "v": p[0], "e": p[1]}
@@ -641,13 +647,13 @@ def value_strategy(name, info):
 _STRATS = {}
 
 
-def any_change(cat, names=None):
+def any_change(cat, names=None, valid_only=False):
     """One change of a uniformly chosen setting (per-setting strategies are built once and cached)."""
     names = sorted(cat) if names is None else list(names)
     for n in names:
-        if n not in _STRATS:
-            _STRATS[n] = value_strategy(n, cat[n])
-    return st.sampled_from(names).flatmap(_STRATS.__getitem__)
+        if (n, valid_only) not in _STRATS:
+            _STRATS[n, valid_only] = value_strategy(n, cat[n], valid_only)
+    return st.sampled_from(names).flatmap(lambda n: _STRATS[n, valid_only])
 
 
 def container_names(cat):
@@ -695,10 +701,10 @@ def _assign_checked(out, cs, ref, ch, part):
             out.check(psame(after, plain(exp)), "%s/stored-value-differs-from-schema-result" % part,
                       lambda: "setting %s: assigned %r, stored %r, schema gives %r" % (name, value, after, plain(exp)))
         return raised is None
-    out.check(raised is not None, "%s/invalid-value-accepted" % part,
-              lambda: "setting %s: schema rejects %r (%r) but assignment succeeded, stored %r" % (name, value, exp, after))
-    out.check(psame(after, before), "%s/invalid-value-changed-setting" % part,
-              lambda: "setting %s: rejected value %r left %r in place of the previous %r" % (name, value, after, before))
+    if out.check(raised is not None, "%s/invalid-value-accepted" % part,
+                 lambda: "setting %s: schema rejects %r (%r) but assignment succeeded, stored %r" % (name, value, exp, after)):
+        out.check(psame(after, before), "%s/invalid-value-changed-setting" % part,
+                  lambda: "setting %s: rejected value %r left %r in place of the previous %r" % (name, value, after, before))
     return False
 
 
@@ -779,12 +785,11 @@ def assign_execute(case):
             name = op["name"]
             out.label("spec:" + _kind(cat[name]["spec"]))
             applied = _assign_checked(out, cs, ref, op, "assign")
-            if applied:
-                model[name] = plain(_val(cs, name))
-                if not psame(model[name], cat[name]["pdefault"]):
-                    n_valid += 1
-            elif not op.get("skip"):
+            if applied and not psame(plain(_val(cs, name)), cat[name]["pdefault"]):
+                n_valid += 1
+            elif not applied and not op.get("skip"):
                 n_invalid += 1
+            model[name] = plain(_val(cs, name))  # the assigned setting itself is judged by _assign_checked
         # every step: nothing but the assigned setting moved
         bad = _diff(model, snapshot(cs))
         if not out.check(not bad, "assign/other-settings-changed", lambda: "after %r these settings differ from the model: %s" % (op, bad[:5])):
@@ -868,9 +873,10 @@ def _with_armi_version(p):
 def _compare_settings(out, expected, got, sig, what, versions_written=True):
     """Compare two snapshots; ``versions`` modulo the armi entry the writer adds."""
     bad = _diff(expected, got, skip=("versions",))
-    out.check(not bad, sig, lambda: "%s: %s" % (what, "; ".join("%s expected %r got %r" % (n, expected.get(n), got.get(n)) for n in bad[:3])))
+    ok1 = out.check(not bad, sig, lambda: "%s: %s" % (what, "; ".join("%s expected %r got %r" % (n, expected.get(n), got.get(n)) for n in bad[:3])))
     ev = _with_armi_version(expected["versions"]) if versions_written else expected["versions"]
-    out.check(psame(ev, got["versions"]), sig + "-versions", lambda: "%s: versions expected %r got %r" % (what, ev, got["versions"]))
+    ok2 = out.check(psame(ev, got["versions"]), sig + "-versions", lambda: "%s: versions expected %r got %r" % (what, ev, got["versions"]))
+    return ok1 and ok2
 
 
 # --------------------------------------------------------------------------------------------------
@@ -903,12 +909,12 @@ def _fix_doc(case):
 def documents_strategy(tier):
     cat = catalogue()
     names = sorted(cat)
-    changes = st.tuples(st.lists(any_change(cat), max_size=10), st.lists(any_change(cat, container_names(cat)), max_size=3),
-                        st.lists(any_change(cat, nested_names(cat)), max_size=2)).map(lambda t: t[0] + t[1] + t[2])
+    changes = st.tuples(st.lists(any_change(cat), max_size=10), st.lists(any_change(cat, container_names(cat), True), max_size=3),
+                        st.lists(any_change(cat, nested_names(cat), True), max_size=3)).map(lambda t: t[0] + t[1] + t[2])
     return st.fixed_dictionaries({
         "changes": changes,
-        "style": st.sampled_from(STYLES),
-        "via": st.sampled_from(["string", "file"]),
+        "style": st.integers(0, 8).map(lambda k: STYLES[k % 3]),
+        "via": st.integers(0, 7).map(lambda k: ["string", "file"][k % 2]),
         "userSet": st.lists(st.one_of(st.sampled_from(names), st.sampled_from(["notASetting", "numProcessors"])), max_size=6, unique=True),
     }).map(_fix_doc)
 
@@ -1005,7 +1011,8 @@ def documents_execute(case):
                      % (style, via, exc, text[:300]))
             return out
         got = snapshot(cs2)
-        _compare_settings(out, expected, got, "documents/roundtrip-value-differs", "%s via %s" % (style, via))
+        if not _compare_settings(out, expected, got, "documents/roundtrip-value-differs", "%s via %s" % (style, via)):
+            return out
         for n in sorted(set(cat) - set(off)):
             if n != "versions":
                 out.check(dict(cs2.items())[n].isDefault(), "documents/default-setting-left-default", "%s is not at default after reading" % n)
@@ -1033,8 +1040,8 @@ UNKNOWN_KEYS = ["notASetting", "nTasks ", "ntasks", "Power", "settings", "", "nu
 
 def _fix_hand(case):
     case = dict(case)
-    for ent in case["entries"]:
-        if ent.get("name") == "userPlugins" and case["via"] == "file":
+    for ent in list(case["pre"]) + list(case["entries"]):
+        if ent.get("name") == "userPlugins" and case["via"] == "file" and not ent.get("skip"):
             v = ent["v"]
             if v is None and _excluded(SIG_UPLUG):
                 case["via"], case["avoided"] = "string", SIG_UPLUG
@@ -1061,17 +1068,22 @@ def handwritten_strategy(tier):
         "pre": st.lists(any_change(cat), max_size=3),
         "entries": st.lists(ent, max_size=8),
         "flow": st.booleans(),
-        "via": st.sampled_from(["string", "file"]),
+        "via": st.integers(0, 7).map(lambda k: ["string", "file"][k % 2]),
         "withVersions": st.booleans(),
+        "answer": st.sampled_from([None, None, "YES", "NO", "N"]),  # the user's reply to the invalid-settings prompt (None: batch mode)
     }).map(_fix_hand)
 
 
 def handwritten_execute(case):
-    from armi.utils.customExceptions import InvalidSettingsFileError
+    import sys
+
+    from armi import context
+    from armi.utils.customExceptions import InvalidSettingsFileError, InvalidSettingsStopProcess
 
     out = Out()
     cat = catalogue()
     via = case["via"]
+    answer = case.get("answer")
     out.label("via:" + via, "flow" if case["flow"] else "block")
     if case.get("avoided"):
         out.label("excluded:" + case["avoided"])
@@ -1119,6 +1131,11 @@ def handwritten_execute(case):
     path = "c17_hand.yaml"
     try:
         raised = reader = None
+        mode0, stdin0 = context.CURRENT_MODE, sys.stdin
+        if answer is not None:
+            # a user at a terminal who answers the "Invalid settings will be ignored. Continue?" prompt
+            context.Mode.setMode(context.Mode.INTERACTIVE)
+            sys.stdin = io.StringIO((answer + "\n") * 3)
         try:
             if via == "string":
                 reader = cs.loadFromString(text)
@@ -1128,7 +1145,18 @@ def handwritten_execute(case):
                 reader = cs.loadFromInputFile(path)
         except Exception as exc:  # noqa: BLE001  (compared with the schema verdicts below)
             raised = exc
+        finally:
+            context.Mode.setMode(mode0)
+            sys.stdin = stdin0
         got = snapshot(cs)
+        declined = first_bad is None and bool(unknown) and answer in ("NO", "N")
+        if declined:
+            out.label("file:unknown-key-declined")
+            out.rejected = raised is not None
+            want = InvalidSettingsStopProcess if via == "string" else InvalidSettingsFileError
+            out.check(isinstance(raised, want), "handwritten/declined-unknown-keys-not-refused",
+                      lambda: "unknown keys %r and the user answers %r: expected %s, got %r" % (sorted(unknown), answer, want.__name__, raised))
+            return out
         if first_bad is not None:
             key, pv, why = first_bad
             out.rejected = raised is not None
@@ -1186,7 +1214,7 @@ def renames_enum(tier):
     for kind in ("active", "future", "expired", "collision", "current-wins"):
         c = {"mode": "synthetic", "kind": kind, "via": "string"}
         if kind in ("active", "future") and _excluded(SIG_RENAME):
-            c = {"mode": "skip", "skip": SIG_RENAME, "kind": kind}
+            c = {"mode": "synthetic", "kind": kind, "via": "string", "ruleOnly": SIG_RENAME}
         cases.append(c)
     return cases
 
@@ -1285,6 +1313,12 @@ def renames_execute(case):
                     "current-wins": [("nCycles", None)]}[kind]
             cs = base.modified(newSettings={"vpc17New": mk("vpc17New", olds)})
             key = "nCycles" if kind == "current-wins" else "vpc17Old"
+            want = {"active": ("vpc17New", True), "future": ("vpc17New", True), "expired": ("vpc17Old", False), "current-wins": ("nCycles", False)}[kind]
+            got_rule = tuple(settingsIO.SettingRenamer(dict(cs.items())).renameSetting(key))
+            out.check(got_rule == want, "renames/renamer-rule", lambda: "%s old name: renameSetting(%r) = %r, documented %r" % (kind, key, got_rule, want))
+            if case.get("ruleOnly"):
+                out.label("excluded:" + case["ruleOnly"])
+                return out
             text = _yaml_text({"settings": {key: 5}})
             before = snapshot(cs)
             reader = _read(cs, text, case["via"], path)
@@ -1317,10 +1351,12 @@ def copies_strategy(tier):
     cat = catalogue()
     mixed = st.tuples(st.lists(any_change(cat), max_size=4), st.lists(any_change(cat, container_names(cat)), max_size=4),
                       st.lists(any_change(cat, nested_names(cat)), max_size=2)).map(lambda t: t[0] + t[1] + t[2])
+    base = st.tuples(st.lists(any_change(cat, None, True), max_size=4), st.lists(any_change(cat, container_names(cat), True), max_size=4),
+                     st.lists(any_change(cat, nested_names(cat), True), max_size=2)).map(lambda t: t[0] + t[1] + t[2])
     return st.fixed_dictionaries({
-        "base": mixed,
+        "base": base,
         "mods": mixed,
-        "how": st.sampled_from(["modified", "modified", "duplicate", "deepcopy", "pickle"]),
+        "how": st.integers(0, 9).map(lambda k: ["modified", "duplicate", "modified", "pickle", "deepcopy"][k % 5]),
         "title": st.one_of(st.none(), st.sampled_from(["caseB", "x y"])),
         "extraKey": st.booleans(),
     })
@@ -1432,7 +1468,7 @@ def copies_execute(case):
         out.check(not bad, "copies/mutable-value-shared-with-original", lambda: "mutating values of the %s copy in place changed the original: %r" % (how, bad[:4]))
         bad = _diff(_pdefaults(), snapshot(_fresh()))
         out.check(not bad, "copies/mutable-default-shared", lambda: "mutating values in place changed the defaults of new Settings objects: %r" % bad[:4])
-        bad = [n for n, s in sorted(_fresh().items()) if not psame(plain(s.default), cat[n]["pdefault"])]
+        bad = [n for c in (_fresh(), cs, cs2) for n, s in sorted(c.items()) if n in cat and not psame(plain(s.default), cat[n]["pdefault"])]
         out.check(not bad, "copies/mutable-default-shared", lambda: "Setting.default changed: %r" % bad[:4])
         # ... and of the original: the copy made before is unaffected
         cs3 = cs.duplicate()
@@ -1441,11 +1477,96 @@ def copies_execute(case):
             _mutate_in_place(s.value)
         bad = _diff(snap3, snapshot(cs3))
         out.check(not bad, "copies/mutable-value-shared-with-original", lambda: "mutating the original in place changed its duplicate: %r" % bad[:4])
+        bad = [n for c in (_fresh(), cs, cs3) for n, s in sorted(c.items()) if n in cat and not psame(plain(s.default), cat[n]["pdefault"])]
+        out.check(not bad, "copies/mutable-default-shared", lambda: "mutating values of the original in place changed Setting.default: %r" % bad[:4])
     finally:
         _quiet()
     return out
 
 
+
+
+# --------------------------------------------------------------------------------------------------
+# part: each_setting (every setting of the App gets its own documents, deterministic values)
+
+_EACH_GENERIC = [
+    "", "abc d", "null", "yes", "1e3", " lead ", "a: b #c", "\u00e9\u6f22", "l1\nl2", "'q' \"r\"", "- x", "0x10",
+    True, False, 0, 1, 7, -1, 40, 0.5, 2.5, 1e22, 1e-5, None,
+    [], [1, 2], ["a", "1e3", "null"], [0.25], [" x", "y: z"], [["x", 1], {"y": [True, None]}], {"$t": [3, 4]},
+    {}, {"k": "v"}, {"a: b": [1, {"c": None}]}, {"vpc17.log": "debug"},
+]
+_EACH_NESTED = {
+    "xs": [
+        {"AA": {"geometry": "0D"}, "BA": {"xsFileLocation": ["a b.isotxs", "1e3"], "blockRepresentation": "Median"}},
+        {"Z": {"geometry": "1D cylinder", "numInternalRings": 2, "mergeIntoClad": ["gap", "null"], "meshSubdivisionsPerCm": 3, "driverID": ""}},
+        {"no": {"geometry": "2D hex", "externalDriver": False, "fluxFileLocation": "f: x", "xsPriority": 1, "validBlockTypes": []}},
+    ],
+    "cycles": [
+        [{"name": "c: 1", "cumulative days": [1, 2.5, 30]}, {"step days": [1, "2", "3R"], "power fractions": [0.5, "1.0", "3R"]}],
+        [{"cycle length": 100, "burn steps": 0, "availability factor": 0}, {"burn steps": 3}],
+    ],
+    "tight": [
+        {"globalFlux": {"parameter": "keff", "convergence": 1e-5}, "thermalHydraulics": {"parameter": "peak: T", "convergence": 1}},
+        {"null": {"parameter": "", "convergence": "0.5"}},
+    ],
+}
+
+
+def each_enum(tier):
+    cat = catalogue()
+    ref = dict(_fresh().items())
+    cases = []
+    for name in sorted(cat):
+        spec = cat[name]["spec"]
+        t = spec["t"]
+        pool = list(_EACH_NESTED.get(t, []))
+        if t == "in":
+            pool += list(spec["options"])
+        if spec.get("suggested"):
+            pool += list(spec["suggested"])
+        if t == "modverb":
+            pool += [{"vpc17.a": "debug", "vpc17 b": "40"}, {}]
+        elif t == "userplugins":
+            pool += [None, [], ["armi.vpc17.mod.Plug", "a: b"]]
+        elif not spec.get("restricted"):
+            pool += _EACH_GENERIC
+        values, seen = [], []
+        for v in pool:
+            ok, exp = _try_schema(ref[name], dec(v))
+            if not ok:
+                continue
+            pe = plain(exp)
+            if any(psame(pe, q) for q in seen):
+                continue
+            seen.append(pe)
+            values.append(v)
+            if len(values) >= (8 if tier == "quick" else 40):
+                break
+        cases.append({"name": name, "values": values})
+    return cases
+
+
+def each_execute(case):
+    out = Out()
+    cat = catalogue()
+    name = case["name"]
+    out.label("spec:" + _kind(cat[name]["spec"]), "values:%d" % len(case["values"]))
+    docs = []
+    for i, v in enumerate(case["values"]):
+        ch = {"name": name, "v": v, "e": "valid"}
+        docs.append({"changes": [ch], "style": "short", "via": "string" if i % 2 else "file", "userSet": []})
+        if i == 0:
+            docs.append({"changes": [ch], "style": "full", "via": "file", "userSet": []})
+        if i == 1 or len(case["values"]) == 1:
+            docs.append({"changes": [ch], "style": "medium", "via": "string", "userSet": [name, "nCycles"]})
+    out.evals = max(1, len(docs))
+    out.nontrivial_count = 0
+    for d in docs:
+        sub = documents_execute(_fix_doc(d))
+        out.violations.extend(sub.violations)
+        out.labels.extend(lab for lab in sub.labels if lab.startswith("excluded:"))
+        out.nontrivial_count += 1
+    return out
 
 
 # --------------------------------------------------------------------------------------------------
@@ -1455,20 +1576,26 @@ PARTS = [
          rule="one case per setting the configured App defines (framework + built-in plugins): the default is admitted by the "
               "setting's own schema, is a fixed point of it, and re-assigning it leaves the setting at default",
          bound=lambda t: "all settings of the configured App"),
-    Part("assign", assign_execute, strategy=assign_strategy, budget={"quick": 1000, "thorough": 40000}, procs={"quick": 3, "thorough": 16},
+    Part("each_setting", each_execute, enumerate=each_enum, exhaustive=True, procs={"quick": 4, "thorough": 8},
+         rule="one case per setting of the configured App: up to 8 (thorough 40) distinct schema-admitted values from a fixed pool (YAML-hostile "
+              "strings, falsy values, numbers, lists, dicts, every listed option, hand-written nested documents), each written alone in short "
+              "style (stream or file), the first also in full and the second in medium style, with the complete `documents` oracle; "
+              "non-trivial = every written document",
+         bound=lambda t: "all settings x <= %d values x {short, medium, full}" % (8 if t == "quick" else 40)),
+    Part("assign", assign_execute, strategy=assign_strategy, budget={"quick": 2000, "thorough": 80000}, procs={"quick": 4, "thorough": 16},
          rule="Hypothesis: histories of 1-10 assignments on one Settings object; the setting is drawn uniformly (nested and container "
               "settings boosted), the value from the setting's introspected schema (Coerce/Range/In/Any/list; hand-written generators "
               "for crossSectionControl, cycles, tightCouplingSettings; YAML-hostile strings; falsy values; the default) incl. near misses; "
               "oracle after every step: schema(v) on an independent Setting copy raises <=> assignment raises, stored == schema(v), a refused "
               "value leaves the previous one, no other setting moves, by-construction expectation of well-formed / near-miss values agrees "
               "with the schema; non-trivial = at least one accepted off-default value and one refused value"),
-    Part("documents", documents_execute, strategy=documents_strategy, budget={"quick": 700, "thorough": 40000}, procs={"quick": 6, "thorough": 16},
+    Part("documents", documents_execute, strategy=documents_strategy, budget={"quick": 1500, "thorough": 100000}, procs={"quick": 6, "thorough": 16},
          rule="Hypothesis: 0-15 settings changed at once -> written by armi in short/medium/full style to a stream or a scratch file -> read "
               "by armi into a fresh Settings; oracle: every setting equal to the value before writing (versions modulo the armi entry), "
               "default settings still at default, the text parsed with ruamel alone has exactly the expected top-level keys per style "
               "(short: off-default + versions; medium: + listed user settings; full: all) and holds the stored values, writing does not "
               "change the settings, the re-written read-back holds the same data; non-trivial = >= 3 settings off default incl. one container"),
-    Part("handwritten", handwritten_execute, strategy=handwritten_strategy, budget={"quick": 800, "thorough": 40000}, procs={"quick": 3, "thorough": 16},
+    Part("handwritten", handwritten_execute, strategy=handwritten_strategy, budget={"quick": 1600, "thorough": 80000}, procs={"quick": 3, "thorough": 16},
          rule="Hypothesis: settings texts produced without armi (ruamel block or flow style) from 0-8 entries (valid values, near misses, "
               "unknown keys, old names) read into a Settings that already holds 0-3 changes; oracle in file order with the values as an "
               "independent YAML parse sees them: first value its schema rejects => reading raises (InvalidSettingsFileError for files) and the "
@@ -1479,7 +1606,7 @@ PARTS = [
               "invalid value lands on / is refused by the new setting; synthetic settings for active, not-yet-expired, expired, colliding "
               "old names and an old name equal to a current name",
          bound=lambda t: "all oldNames of the configured App x {string, file} x 3 values + 5 synthetic expiry shapes"),
-    Part("copies", copies_execute, strategy=copies_strategy, budget={"quick": 450, "thorough": 20000}, procs={"quick": 3, "thorough": 16},
+    Part("copies", copies_execute, strategy=copies_strategy, budget={"quick": 800, "thorough": 40000}, procs={"quick": 3, "thorough": 16},
          rule="Hypothesis: a Settings with 0-10 changes is copied by modified(newSettings)/duplicate()/deepcopy/pickle and the copy is "
               "changed by assignment and by in-place mutation of every list/dict/XS value (and vice versa); oracle: the original's snapshot, "
               "the defaults of new Settings objects and an earlier duplicate never change, the copy holds schema(v) for the modified settings "
